@@ -19,7 +19,7 @@
 
 /*@unit
 name: mbuff.splice.accept
-define: VERIF_MB_GHOSTCOPY, U_SPLICE, U_ACCEPT
+define: VERIF_MB_GHOSTCOPY, VERIF_MB_GHOST1, U_SPLICE, U_ACCEPT
 src: mbuff.c
 enforce: spif_mbuff_splice
 backend: sat
@@ -29,7 +29,7 @@ timeout: 150
 */
 /*@unit
 name: mbuff.splice.negcnt
-define: VERIF_MB_GHOSTCOPY, U_SPLICE, U_NEGCNT
+define: VERIF_MB_GHOSTCOPY, VERIF_MB_GHOST1, U_SPLICE, U_NEGCNT
 src: mbuff.c
 enforce: spif_mbuff_splice
 backend: sat
@@ -39,7 +39,7 @@ timeout: 150
 */
 /*@unit
 name: mbuff.splice.refuse
-define: VERIF_MB_GHOSTCOPY, U_SPLICE, U_REFUSE
+define: VERIF_MB_GHOSTCOPY, VERIF_MB_GHOST1, U_SPLICE, U_REFUSE
 src: mbuff.c
 enforce: spif_mbuff_splice
 backend: sat
@@ -49,7 +49,7 @@ timeout: 150
 */
 /*@unit
 name: mbuff.splice_from_ptr.accept
-define: VERIF_MB_GHOSTCOPY, U_SPLICE_PTR, U_ACCEPT
+define: VERIF_MB_GHOSTCOPY, VERIF_MB_GHOST1, U_SPLICE_PTR, U_ACCEPT
 src: mbuff.c
 enforce: spif_mbuff_splice_from_ptr
 backend: sat
@@ -59,7 +59,7 @@ timeout: 150
 */
 /*@unit
 name: mbuff.splice_from_ptr.negcnt
-define: VERIF_MB_GHOSTCOPY, U_SPLICE_PTR, U_NEGCNT
+define: VERIF_MB_GHOSTCOPY, VERIF_MB_GHOST1, U_SPLICE_PTR, U_NEGCNT
 src: mbuff.c
 enforce: spif_mbuff_splice_from_ptr
 backend: sat
@@ -69,13 +69,45 @@ timeout: 150
 */
 /*@unit
 name: mbuff.splice_from_ptr.refuse
-define: VERIF_MB_GHOSTCOPY, U_SPLICE_PTR, U_REFUSE
+define: VERIF_MB_GHOSTCOPY, VERIF_MB_GHOST1, U_SPLICE_PTR, U_REFUSE
 src: mbuff.c
 enforce: spif_mbuff_splice_from_ptr
 backend: sat
 objbits: 6
 flags: --slice-formula
 timeout: 150
+*/
+/*@unit
+name: mbuff.splice.accept.view
+define: VERIF_MB_GHOSTCOPY, VERIF_MB_GHOST1, U_SPLICE, U_ACCEPT, U_VIEW
+src: mbuff.c
+backend: sat
+flags: --slice-formula
+funcs: spif_mbuff_splice
+*/
+/*@unit
+name: mbuff.splice.negcnt.view
+define: VERIF_MB_GHOSTCOPY, VERIF_MB_GHOST1, U_SPLICE, U_NEGCNT, U_VIEW
+src: mbuff.c
+backend: sat
+flags: --slice-formula
+funcs: spif_mbuff_splice
+*/
+/*@unit
+name: mbuff.splice_from_ptr.accept.view
+define: VERIF_MB_GHOSTCOPY, VERIF_MB_GHOST1, U_SPLICE_PTR, U_ACCEPT, U_VIEW
+src: mbuff.c
+backend: sat
+flags: --slice-formula
+funcs: spif_mbuff_splice_from_ptr
+*/
+/*@unit
+name: mbuff.splice_from_ptr.negcnt.view
+define: VERIF_MB_GHOSTCOPY, VERIF_MB_GHOST1, U_SPLICE_PTR, U_NEGCNT, U_VIEW
+src: mbuff.c
+backend: sat
+flags: --slice-formula
+funcs: spif_mbuff_splice_from_ptr
 */
 #include "vprelude.h"
 #include "env_mbuff.h"
@@ -100,6 +132,7 @@ timeout: 150
 #define OLD_BYTE(o, k)  __CPROVER_old((o)->buff[VCLAMP((k), (o)->len)])
 long w_idx, w_cnt, w_n;
 
+#ifndef U_VIEW
 #ifdef U_SPLICE
 # define N_INS   ((size_t) (other == NULL ? 0 : other->len))
 # define INS(k)  (other->buff[(k)])
@@ -130,8 +163,8 @@ __CPROVER_ensures(MBUFF_POST(self))
 __CPROVER_ensures(!ACCEPTED || (size_t) self->len == (size_t) OLEN(self) - C0 + N_INS)
 __CPROVER_ensures(!ACCEPTED || !(vg_k < I0 && vg_k < (size_t) self->len) || self->buff[vg_k] == OLD_BYTE(self, vg_k))
 __CPROVER_ensures(!ACCEPTED || !(vg_k >= I0 && vg_k < I0 + N_INS) || self->buff[vg_k] == INS(vg_k - I0))
-__CPROVER_ensures(!ACCEPTED || !(vg_k >= I0 + N_INS && vg_k < (size_t) self->len) ||
-                  self->buff[vg_k] == OLD_BYTE(self, (I0 + C0) + (vg_k - (I0 + N_INS))))
+/* the tail clause  s'[k] = s[k - n + c]  is checked by the .view units below (same pre-state, same
+ * call, plain harness): under the DFCC instrumentation no back end finished it (> 150 s), without it 1 s */
 /* refused inside this behaviour (negative count reaching before idx): unchanged */
 __CPROVER_ensures(ACCEPTED || (MBUFF_UNCHANGED_FIELDS(self) &&
                   (!(vg_k < (size_t) self->len) || self->buff[vg_k] == OLD_BYTE(self, vg_k))))
@@ -152,3 +185,55 @@ void harness(void)
 #endif
     VERIF_CANARY();
 }
+#else
+/* ---- whole-view check, plain harness (no DFCC): arbitrary valid self (both states), arbitrary other,
+ * every (idx, cnt) of the behaviour; the three regions of the result at the ghost index vg_k. ---- */
+static spif_mbuff_t mk_mbuff(void)
+{
+    spif_mbuff_t o = malloc(sizeof(*o));
+    spif_memidx_t L = nondet_long(), S = nondet_long();
+    if (nondet_bool()) { o->buff = NULL; o->len = 0; o->size = 0; return o; }
+    __CPROVER_assume(0 <= L && L <= S && 0 < S && S <= VCAP);
+    o->buff = malloc((size_t) S); o->len = L; o->size = S;
+    return o;
+}
+void harness(void)
+{
+    spif_mbuff_t self = mk_mbuff(); spif_memidx_t idx = nondet_long(), cnt = nondet_long();
+    spif_memidx_t L = self->len;
+    spif_byteptr_t ins; size_t n;
+# ifdef U_SPLICE
+    spif_mbuff_t other = nondet_bool() ? NULL : mk_mbuff();
+    n = other ? (size_t) other->len : 0; ins = other ? other->buff : NULL;
+# else
+    spif_memidx_t len = nondet_long(); spif_byteptr_t other;
+    __CPROVER_assume(0 <= len && len <= VCAP);
+    other = nondet_bool() ? NULL : malloc((size_t) len);
+    n = other ? (size_t) len : 0; ins = other;
+# endif
+    __CPROVER_assume(L + (spif_memidx_t) n <= VCAP && IDX_RANGE(idx) && IDX_RANGE(cnt));
+    __CPROVER_assume(BEHAVIOUR(idx, cnt, L));
+    _Bool ok = SP_OK(idx, cnt, L);
+    size_t i = ok ? (size_t) SP_I(idx, L) : 0, c = ok ? (size_t) SP_C(idx, cnt, L) : 0;
+    /* the ideal result byte at vg_k, read from the entry state */
+    size_t L1 = ok ? (size_t) L - c + n : (size_t) L;
+    unsigned char want = 0;
+    if (vg_k < L1) {
+        if (!ok) want = self->buff[vg_k];
+        else if (vg_k < i) want = self->buff[vg_k];
+        else if (vg_k < i + n) want = ins[vg_k - i];
+        else want = self->buff[vg_k - n + c];
+    }
+    w_idx = idx; w_cnt = cnt; w_n = (long) n;
+# ifdef U_SPLICE
+    spif_bool_t r = spif_mbuff_splice(self, idx, cnt, other);
+# else
+    spif_bool_t r = spif_mbuff_splice_from_ptr(self, idx, cnt, other, len);
+# endif
+    __CPROVER_assert(r == (ok ? TRUE : FALSE), "splice view: accepted exactly when position and count are inside the buffer");
+    __CPROVER_assert((size_t) self->len == L1, "splice view: length is len - cnt + inserted");
+    __CPROVER_assert(self->len <= self->size, "splice view: capacity not below length");
+    __CPROVER_assert(!(vg_k < L1) || self->buff[vg_k] == want, "splice view: byte vg_k equals the ideal sequence (head / inserted / tail)");
+    VERIF_CANARY();
+}
+#endif
